@@ -62,4 +62,21 @@ PROPS["C06"] = {
     "assumptions": ["contested routes: only 'the earlier standing claimant keeps it' is demanded (C14); otherwise any claimant is accepted"],
 }
 
+PROPS["C14"] = {
+    "parts": [{"name": "names", "pkg": "c14", "chk": "chk_c14"},
+              {"name": "claims", "pkg": "c06", "chk": "chk_c06"}],
+    "reasons": {"names": {
+        "1": "gRPC-style name parsed wrongly or method name not passed through verbatim",
+        "2": "routed to a target whose current description does not list the service",
+        "3": "service listed by a live target is not routed",
+        "4": "contested service not routed to the earlier, still standing claimant",
+        "5": "wrong error class for unknown service / malformed name / non-POST"},
+      "claims": PROPS["C06"]["reasons"]["histories"]},
+    "rule": "names: strings assembled from service names, method names, empty parts, extra slashes, dots, %-escapes, non-ASCII, with/without leading slash; fed as grpc.Method (RouteGRPC), as HTTP requests parsed by http.ReadRequest (RouteHTTP), through GRPCWebBridge and (2%) through GRPCProxy over bufconn with a real gRPC client; after a random claim history of 1-6 ops over 3 targets and 4 overlapping service names; non-trivial = name contains '/' and >=1 update. claims: the C06 histories (owner/claimant reasons)",
+    "level_text": "Coq theorems: parse law for every service name without '/' and EVERY method string (verbatim, slashes and escapes included), with or without the leading slash; names without a separator are rejected; the RPC name handed on is '/'+service+'/'+method; routing result is the service table's owner. Ownership after claim histories is tied to the code by the history correspondence (C06 model) and the executable 'earlier standing claimant' property.",
+    "level_note": "Trusted: Coq kernel, extraction, modelrun, Go harness; net/http URL parsing (the model receives URL.Path as net/http produced it); grpc-go's own method-name validation on the proxy path.",
+    "design_ref": "DESIGN.md §3 C14",
+    "assumptions": ["for services claimed by several live targets where the earlier claimant has left, any remaining claimant is accepted"],
+}
+
 NOT_APPLICABLE = {}
